@@ -24,6 +24,9 @@ Model: `RedisVerif.Shard` (M2, `Model/Replica.lean`) = `ShardReplicaState` plus 
   `apply_recovered_state(checkpoint, deltas)` every shard's subsequent writes are stamped above
   EVERY recovered value routed to it, tombstones included
   (`node_recovery_skip_tombstones_counterexample`: a recovery loop that skips tombstones breaks it).
+* `flush_keeps_clock`: FLUSHDB/FLUSHALL leave the replication state (and its Lamport clock) alone,
+  so later writes stay above everything seen before (`flush_resets_clock_counterexample`: a flush
+  that re-initialises the replication state repeats stamps).
 * `recovered_without_clock_update_counterexample`: the pinned commit (ApplyRecoveredState did
   not advance the clock) violates the property — repaired by a `fix:` commit.
 -/
@@ -534,6 +537,42 @@ example :
   decide
 
 open ShardedNode
+
+/-! ## FLUSHDB / FLUSHALL on a replicated shard -/
+
+/-- **a flush keeps the clock**: after FLUSHDB/FLUSHALL (which leaves the replication state alone)
+    the shard is still clock-dominated, and every write it acknowledges later — after any further
+    history — is stamped strictly above every stamp it held before the flush -/
+theorem flush_keeps_clock (s : Shard) (h : s.Inv) :
+    (flush s).Inv ∧
+    ∀ (post : List Op) (w : Op) (d : RV), effective (run (flush s) post) w = true →
+      (step (run (flush s) post) w).2 = some d →
+      ∀ p ∈ s.keys, ∀ t ∈ p.2.allStamps, t.lt d.ts = true := by
+  have hf : flush s = s := by simp [flush, flushWith]
+  rw [hf]
+  refine ⟨h, ?_⟩
+  intro post w d he hd p hp t ht
+  obtain ⟨d', hd', _, hlt⟩ := issued_stamp_is_new_clock _ w he
+  rw [hd] at hd'; cases hd'
+  apply Stamp.lt_of_time_lt
+  have ⟨h1, h2⟩ := h.2 p hp
+  have htime : t.time ≤ s.clock.time := by
+    simp only [RV.allStamps, List.mem_cons] at ht
+    rcases ht with rfl | ht
+    · exact h1
+    · exact Nat.le_trans (h2 t ht) h1
+  have := run_clock_monotone s post
+  omega
+
+/-- a flush that re-initialises the replication state (`*self = ShardReplicaState::new(..)`):
+    SET k ×3 (stamps 1, 2, 3); FLUSHALL; SET k → acknowledged with (1, r) < (3, r); a peer that holds
+    the third write keeps serving it -/
+theorem flush_resets_clock_counterexample :
+    let s := run (Shard.init 1 false) [.write 7 [97] none, .write 7 [98] none, .write 7 [99] none]
+    let old := (NMap.get s.keys 7).getD (RV.new 1)
+    let d := (recordWrite (flushWith true s) 7 [110] none).2
+    old.ts = ⟨3, 1⟩ ∧ d.ts = ⟨1, 1⟩ ∧ d.ts.lt old.ts = true ∧ (RV.merge old d).get = some [99] := by
+  decide
 
 /-! ## node level: recovery of a whole `ReplicatedShardedState` -/
 
